@@ -53,6 +53,7 @@ fn generate(prop: &str, seed: u64, thorough: bool) -> Option<Plan> {
         "C05udpin" => Some(scen_c05i::gen_c05i("C05", seed, thorough)),
         "C02v6" => Some(scen_udp::gen_c02_v6(seed, thorough)),
         "C02owner" => Some(scen_c05i::gen_c05i("C02", seed, thorough)),
+        "C11roam" => Some(scen_c05i::gen_c05i("C11", seed, thorough)),
         "C12roam" => Some(scen_c05i::gen_c05i("C12", seed, thorough)),
         "C08reply" => Some(scen_c05i::gen_c05i("C08", seed, thorough)),
         "C06" => Some(scen_adv::gen_adv("C06", seed, thorough)),
@@ -63,6 +64,7 @@ fn generate(prop: &str, seed: u64, thorough: bool) -> Option<Plan> {
         "C07udp" => Some(scen_ustream::gen_ustream("C07", seed, thorough)),
         "C08udp" => Some(scen_c08u::gen_c08u(seed, thorough)),
         "C09" => Some(scen_tcp::gen_c09(seed, thorough)),
+        "C09hostile" => Some(scen_c08::gen_c09_hostile(seed, thorough)),
         "C09sid" => Some(scen_adv::gen_c09_sid(seed, thorough)),
         "C09udp" => Some(scen_udp::gen_c09_udp(seed, thorough)),
         "C10" => Some(scen_c10::gen_c10(seed, thorough)),
